@@ -213,7 +213,7 @@ def run_case(case):
                     keys.append(k)
             if len(keys) != len(set(keys)):
                 bump("overridden_key")
-    return {"verdict": "violated" if viol else "held", "violations": viol[:20], "evaluations": counters.get("headers_judged", 0),
+    return {"verdict": "violated" if viol else "held", "violations": pipeline.diverse(viol, 40), "evaluations": counters.get("headers_judged", 0),
             "nontrivial_sigs": sorted(sigs), "counters": counters, "sample": sample or {}}
 
 
